@@ -1027,6 +1027,7 @@ package kafka
 //@ func (*connPool).update
 //@   requires p.conns != nil
 //@   option noframe
+//@   option timeout 120
 //@   modifies heap
 //@   loop 1 invariant addBrokers != nil && delBrokers != nil
 //@   loop 1 invariant forall id int32 :: visited(id) ==> ((!haskey(state.layout.Brokers, id) ==> haskey(addBrokers, id)) && (haskey(state.layout.Brokers, id) && state.layout.Brokers[id] != layout.Brokers[id] ==> haskey(addBrokers, id) && haskey(delBrokers, id)))
